@@ -839,12 +839,30 @@ class Engine:
         return False
 
     def _check_raise(self, ctx: Ctx, contract: Contract, ns: NS, exc: ExcVal):
+        # `raises_here`: exceptional postconditions for exceptions raised by a `raise` statement of this very function
+        # (not propagated from a callee): raise X here => cond_X
+        here = getattr(contract.impl, "raises_here", None) or {}
+        origin = exc.fields.get("__origin__") or ""
+        if here and isinstance(origin, str) and origin.startswith(contract.qualname + " line"):
+            for xname, cond in here.items():
+                if self.exc_matches(exc, xname):
+                    ns.__dict__["exc"] = exc
+                    c = self.run_spec(ctx, cond, ns)
+                    ctx.oblige("%s/raises-here#%s" % (short(ctx.func), xname), lift_bool(c), kind="raises")
+                    break
         matched = None
         for xname in contract.raises:
             if self.exc_matches(exc, xname):
                 matched = xname
                 break
         if matched is None:
+            for xname, cond in contract.raises_only_if.items():
+                if self.exc_matches(exc, xname):
+                    ns.__dict__["exc"] = exc
+                    c = self.run_spec(ctx, cond, ns)
+                    ctx.oblige("%s/raises#%s" % (short(ctx.func), xname), lift_bool(c), kind="raises",
+                               info={"origin": exc.fields.get("__origin__")})
+                    return
             for xname in contract.may_raise:
                 if self.exc_matches(exc, xname):
                     return
@@ -1415,7 +1433,12 @@ class Engine:
         for k, v in zip(e.keys, e.values):
             if k is None:
                 raise EngineLimit("dict unpacking")
-            d.items[self.hashable(self.eval(ctx, k, env))] = self.eval(ctx, v, env)
+            kv = self.eval(ctx, k, env)
+            vv = self.eval(ctx, v, env)
+            try:
+                d.items[self.hashable(kv)] = vv
+            except EngineLimit:
+                d.opaque = True  # a key that is not a concrete hashable: the contents are not tracked
         return d
 
     def hashable(self, k):
@@ -1727,6 +1750,11 @@ class Engine:
                 pending_raise = True
         if pending_raise:
             raise PathEnd()  # some condition held: a normal return is excluded by the contract
+        for xname, cond in contract.raises_only_if.items():
+            c = lift_bool(self.run_spec(ctx, cond, ns))
+            if ctx.decide(c):
+                if ctx.choose(2) == 1:
+                    raise PyRaise(ExcVal(self.exc_class(xname)))
         for xname in contract.may_raise:
             if ctx.choose(2) == 1:
                 raise PyRaise(ExcVal(self.exc_class(xname)))
